@@ -139,8 +139,10 @@ Fixpoint bad_sites_from (w : world) (c : cfg) (l all : list site) (i : Z) : list
 Definition bad_sites (w : world) (c : cfg) (l : list site) : list Z := bad_sites_from w c l l 0.
 
 (* can the class consume numpy's / Python's module-level generators? *)
+(* (a Global draw, or a hand-over that omits / passes None for the random state: the callee falls back to check_random_state(None),
+   numpy's global generator) *)
 Definition may_touch_global (w : world) (c : cfg) (l : list site) : bool :=
-  existsb (fun s => reach w c s && (s_cls s =? K_Global)) l.
+  existsb (fun s => reach w c s && ((s_cls s =? K_Global) || (s_cls s =? K_PassFresh))) l.
 
 Definition site_eqb (a b : site) : bool := (s_owner a =? s_owner b) && (s_key a =? s_key b) && (s_cls a =? s_cls b).
 Definition site_in (s : site) (l : list site) : bool := existsb (site_eqb s) l.
@@ -160,7 +162,7 @@ Definition env_benign (e : esite) : bool := (e_flow e =? F_LogOnly) || (e_flow e
 Definition env_ok (w : world) (c : cfg) (l : list esite) : bool := forallb (fun e => implb (ereach w c e) (env_benign e)) l.
 Definition esite_eqb (a b : esite) : bool := (e_owner a =? e_owner b) && (e_key a =? e_key b) && (e_kind a =? e_kind b) && (e_flow a =? e_flow b).
 Definition esite_in (e : esite) (l : list esite) : bool := existsb (esite_eqb e) l.
-Definition prefix_regevo_site : esite := {| e_owner := O_RegEvo; e_key := S_RegevoSetOrder; e_kind := E_SetOrder; e_flow := F_Flows |}.   (* F25 *)
+Definition prefix_regevo_site : esite := {| e_owner := O_RegEvo; e_key := S_RegevoSetOrder; e_kind := E_SetOrder; e_flow := F_Flows |}.   (* F47 *)
 
 (* ------------------------------------------------------------------ the instance as a program *)
 Definition src_at (w : world) (c : cfg) (l : list site) (i : nat) : src :=
